@@ -505,4 +505,81 @@ Proof.
   exists e, m. repeat split; auto; congruence.
 Qed.
 
+(* r-send messages enter the network only through Broadcast calls of their sender *)
+Lemma gstep_rsend : forall g e q dst m, In (q, dst, m) (gsent (gstep g e)) -> m_act m = 1 ->
+  In (q, dst, m) (gsent g) \/
+  exists v coin, e = EBcast q v coin /\ hon q /\ In (dst, m) (snd (broadcast n q (gp g q) v coin)).
+Proof.
+  assert (NEW : forall g p out q dst m, In (q, dst, m) (gsent g ++ map (fun dm : Z * msg => (p, fst dm, snd dm)) out) ->
+                In (q, dst, m) (gsent g) \/ (q = p /\ In (dst, m) out)).
+  { intros g p out q dst m I. apply in_app_or in I. destruct I as [I|I]; auto. right.
+    apply in_map_iff in I. destruct I as ([d0 x0] & E & I). cbn in E. inversion E; subst. auto. }
+  assert (PS : forall st st' out r off dst m, pstep st st' out r off -> In (dst, m) out -> m_act m = 1 -> False).
+  { intros st st' out r off dst m (_ & _ & _ & _ & _ & S & _) I A. destruct (S _ _ I) as [N _]. auto. }
+  intros g e q dst m I A. destruct e; cbn [RbcModel.gstep] in I.
+  - destruct (honest n byz p) eqn:Hp; auto. unfold broadcast in *. cbn [gsent] in I. apply NEW in I.
+    destruct I as [I|[-> I]]; auto. right. exists m0, coin. auto.
+  - destruct (honest n byz p && can_recv n byz g p l m0); auto. unfold apply_out in I. cbn [gsent] in I. apply NEW in I.
+    destruct I as [I|[-> I]]; auto. exfalso. eapply PS; eauto. apply (deliver_pstep n t H toolong skip).
+  - destruct (honest n byz p); auto. unfold apply_out in I. cbn [gsent] in I. apply NEW in I.
+    destruct I as [I|[-> I]]; auto. exfalso. eapply PS; eauto. apply (deliver_pstep n t H toolong skip).
+  - destruct (honest n byz p && can_recv n byz g p l m0); auto. unfold apply_from, apply_out in I.
+    destruct (snd (deliver_from n t skip H toolong p (gp g p) i (Some (l, m0)))); cbn [gsent] in I; apply NEW in I;
+    (destruct I as [I|[-> I]]; auto; exfalso; eapply PS; eauto; apply (deliver_from_pstep n t H toolong skip)).
+  - destruct (honest n byz p); auto. unfold apply_from, apply_out in I.
+    destruct (snd (deliver_from n t skip H toolong p (gp g p) i None)); cbn [gsent] in I; apply NEW in I;
+    (destruct I as [I|[-> I]]; auto; exfalso; eapply PS; eauto; apply (deliver_from_pstep n t H toolong skip)).
+  - destruct (honest n byz p); auto.
+  - destruct (honest n byz p); auto.
+  - destruct (honest n byz p); auto.
+Qed.
+
+Theorem rsend_only_by_broadcast : forall es j dst m, In (j, dst, m) (gsent (run es)) -> m_act m = 1 ->
+  exists es1 v coin es2, es = es1 ++ EBcast j v coin :: es2 /\ hon j /\
+                         In (dst, m) (snd (broadcast n j (gp (run es1) j) v coin)).
+Proof.
+  induction es as [|e es IH] using rev_ind; intros j dst m I A.
+  - cbn in I. contradiction.
+  - unfold grun in I. rewrite fold_left_app in I. cbn [fold_left] in I.
+    apply gstep_rsend in I; auto. destruct I as [I|(v & coin & -> & Hj & I)].
+    + destruct (IH _ _ _ I A) as (es1 & v & coin & es2 & -> & Hj & J).
+      exists es1, v, coin, (es2 ++ [e]). rewrite <- app_assoc. auto.
+    + exists es, v, coin, []. auto.
+Qed.
+
 End Bracha.
+
+(* ---- the property statements with a collision-free digest hash ------------------------------------------- *)
+Section Final.
+Variables (n t skip : Z) (H : Z -> Z) (toolong : tagT -> Z -> bool) (byz : Z -> bool).
+Hypothesis n_gt_3t : 3 * t < n.
+Hypothesis t_nonneg : 0 <= t.
+Variable B : list Z.
+Hypothesis B_small : Z.of_nat (length B) <= t.
+Hypothesis B_byz : forall l, byz l = true -> In l B.
+Hypothesis H_nonzero : forall m, H m <> 0.
+Hypothesis H_inj : forall a b, H a = H b -> a = b.
+Notation run := (grun n t skip H toolong byz).
+
+Theorem agreement : forall es p q tg v v',
+  In (p, tg, v) (glog (run es)) -> In (q, tg, v') (glog (run es)) ->
+  ~ retrieved (gp (run es) p) tg -> ~ retrieved (gp (run es) q) tg -> v = v'.
+Proof. intros. apply H_inj. eapply agreement_digest; eauto. Qed.
+
+Theorem integrity : forall es p id j s v,
+  In (p, (id, j, s), v) (glog (run es)) -> ~ retrieved (gp (run es) p) (id, j, s) -> byz j = false ->
+  exists es1 coin es2 dst, es = es1 ++ EBcast j v coin :: es2 /\
+    In (dst, Msg id j s 1 v) (snd (broadcast n j (gp (run es1) j) v coin)).
+Proof.
+  intros es p id j s v I N Hj.
+  destruct (integrity_digest n t skip H toolong byz n_gt_3t t_nonneg B B_small B_byz H_nonzero es p id j s v I N Hj)
+    as (e & m & Im & Tm & Am & Pm).
+  apply H_inj in Pm.
+  destruct (rsend_only_by_broadcast n t skip H toolong byz es j e m Im Am) as (es1 & v0 & coin & es2 & E & _ & J).
+  assert (M : m = Msg id j s 1 v).
+  { destruct m as [a b c d f]. unfold mtag in Tm. cbn in *. inversion Tm; subst. reflexivity. }
+  subst m. assert (v0 = v).
+  { unfold broadcast in J. cbn in J. apply in_to_all in J. inversion J. reflexivity. }
+  subst v0. exists es1, coin, es2, e. auto.
+Qed.
+End Final.
